@@ -119,7 +119,7 @@ theorem pExecLoop_good (indent : Nat) (st : ExSt) (inputs : List Ident) (stmts :
         · fuel_tac
       · fuel_tac
   · rw [sat_ite]
-    refine ⟨fun _ => errCurr_sat hs, fun _ => ?_⟩
+    refine ⟨fun _ => by simp only [Variant.fixed]; exact errPeek_sat hs (by decide), fun _ => ?_⟩
     simp only [sat_pure]
     refine post_le rfl hs (Nat.le_refl _) (Nat.le_refl _) (fun h => absurd h hcond) ?_
     refine .mk _ _ _ hpre.1 (fun c hc => ?_) (fun c hc b hb => ?_)
